@@ -105,13 +105,13 @@ def _dec_strategy(tier):
 # ---------------------------------------------------------------------------------------
 # header and entries
 def dt_of(sec):
-    return datetime(1970, 1, 1) + timedelta(seconds=sec)
+    """the naive local datetime of an epoch second, in whatever zone the process runs (fold set in a repeated hour), so that
+    .timestamp() - which is what the library stores - gives the second back"""
+    return datetime.fromtimestamp(sec)
 
 
 def sec_of(dt):
-    if dt.tzinfo is not None:   # aware: the instant it denotes
-        return int(dt.timestamp())
-    return int((dt - datetime(1970, 1, 1)).total_seconds() // 1)
+    return int(dt.timestamp())
 
 
 from ..container import dates31  # signed 32-bit second timestamps (also before 1970)
